@@ -197,6 +197,12 @@ class G:
             props.append(("ORGANIZER", self.params(), ("caladdress", "mailto:boss@example.com")))
         if r.randrange(4) == 0 and kind != "VFREEBUSY":
             props.append(("RRULE", (), self.recur()))
+            if r.randrange(6) == 0:
+                props.append((r.choice(("RRULE", "EXRULE")), (), self.recur()))       # a second rule; the deprecated EXRULE
+        if r.randrange(12) == 0:
+            props.append(("RELATED-TO", (("RELTYPE", r.choice(("PARENT", "CHILD", "SIBLING"))),) if r.randrange(2) else (), ("text", f"uid-{r.randrange(5)}@example.com")))
+        if r.randrange(15) == 0:
+            props.append(("REQUEST-STATUS", (), ("text", r.choice(("2.0;Success", "3.1;Invalid property value;DTSTART:96-Apr-01", "2.8; Success, repeating event ignored.")))))
         tzs = start[7] if start[0] == "dt" else None
         for _ in range(r.choice((0, 0, 0, 1, 2))):
             if kind == "VFREEBUSY":
@@ -328,6 +334,26 @@ class G:
                 name = r.choice(("ATTENDEE", "COMMENT", "X-MANY"))
                 many = tuple((name, (), ("caladdress", f"mailto:many{j}@example.com") if name == "ATTENDEE" else ("text", f"many {j}")) for j in range(r.randrange(20, 45)))
                 subs[i] = (c[0], c[1], c[2] + many, c[3])
+        # unusual sizes (about one calendar in forty): a very long text, hundreds of values of one name, a parameter with 200 items,
+        # a chain of forty nested components
+        if r.randrange(40) == 0 and subs:
+            i = r.randrange(len(subs))
+            c = subs[i]
+            k = r.randrange(4)
+            if k == 0:
+                big = " ".join(self.text(6) or "filler" for _ in range(r.randrange(400, 2500)))
+                subs[i] = (c[0], c[1], c[2] + (("DESCRIPTION" if c[1] != "VTIMEZONE" else "COMMENT", (), ("text", big)),), c[3])
+            elif k == 1 and c[1] in ("VEVENT", "VTODO", "VJOURNAL"):
+                many = tuple(("ATTENDEE", (("CN", f"Person {j}"),) if j % 7 == 0 else (), ("caladdress", f"mailto:p{j}@example.com")) for j in range(r.randrange(150, 500)))
+                subs[i] = (c[0], c[1], c[2] + many, c[3])
+            elif k == 2:
+                items = ("l",) + tuple(f"mailto:m{j}@example.com" for j in range(200))
+                subs[i] = (c[0], c[1], c[2] + (("X-VERIF-WIDE", (("MEMBER", items),), ("text", "wide")),), c[3])
+            elif self.unknown:
+                node = ("comp", "X-DEEP", (("X-NOTE", (), ("text", "bottom")),), ())
+                for j in range(40):
+                    node = ("comp", "X-DEEP", (("X-LEVEL", (), ("int", j)),) if j % 9 == 0 else (), (node,))
+                subs.append(node)
         return ("comp", "VCALENDAR", tuple(props), tuple(subs))
 
 
